@@ -301,15 +301,13 @@ func senderSpace(o ls.Options, first int) {
 }
 
 func product(o ls.Options) {
-	b := &engine.BFS{NumOps: len(ls.Classes), MaxStates: 400000, Stop: func() bool { return ctx.ViolationCount() > 0 }}
+	b := &engine.BFS{NumOps: len(ls.Classes), MaxStates: 400000, MaxTransitions: 1000000, Stop: func() bool { return ctx.ViolationCount() > 0 }}
 	b.Run = func(path []uint16) (string, bool) {
-		snd := refmidi.NewSender(buf)
+		// every byte stream, sender-legal or not: the statement compares two
+		// listeners on the same wire, whatever is on it
 		stream := make([]byte, len(path))
 		for i, p := range path {
 			stream[i] = ls.Classes[p]
-			if !snd.Legal(stream[i]) {
-				return "", false
-			}
 		}
 		ctx.Eval()
 		full := ls.NewLoop(ls.All(buf))
@@ -333,7 +331,7 @@ func product(o ls.Options) {
 				return "", false
 			}
 		}
-		return full.ReaderState() + "|" + rest.ReaderState() + "|" + snd.Key(), true
+		return full.ReaderState() + "|" + rest.ReaderState(), true
 	}
 	b.Explore("init")
 	ctx.Add("states", b.States)
@@ -347,13 +345,79 @@ func product(o ls.Options) {
 	}
 }
 
+// chunkClasses: reduced byte alphabet for long streams handed over in ONE
+// Send call (decoders tend to grow per-chunk shortcuts): data, two channel
+// statuses (two and one data byte), sysex start/end, the two filtered
+// real-time bytes and an undefined one.
+var chunkClasses = []byte{0x01, 0x90, 0xC0, 0xF0, 0xF7, 0xF8, 0xFE, 0xFD}
+
+// chunkSpace: every stream over chunkClasses up to the length bound whose
+// first two bytes are (c0, c1), sent as one chunk, and again as two chunks cut
+// at every position; all option sets against the all-options listener.
+func chunkSpace(c0, c1 int) {
+	maxLen := ctx.Pick(6, 8)
+	cs := combos()
+	stream := make([]byte, 0, maxLen)
+	stream = append(stream, chunkClasses[c0], chunkClasses[c1])
+	one := func(raw []byte, chunks []int) {
+		full := ls.NewLoop(ls.All(buf))
+		full.Drv.Sleep(3 * time.Millisecond)
+		pos := 0
+		for _, n := range chunks {
+			if _, c := full.Send(raw[pos : pos+n]); c.Panicked {
+				return // C06's business
+			}
+			pos += n
+		}
+		ctx.Eval()
+		for _, o := range cs {
+			rest := ls.NewLoop(o)
+			rest.Drv.Sleep(3 * time.Millisecond)
+			pos := 0
+			for _, n := range chunks {
+				if _, c := rest.Send(raw[pos : pos+n]); c.Panicked {
+					report(c.Sig+":"+optName(o), o, raw, chunks, nil, "Send panicked only under this option set: "+c.Value)
+					return
+				}
+				pos += n
+			}
+			want := project(full.Got, o)
+			if len(want) != len(full.Got) {
+				ctx.NontrivialN(1)
+			}
+			if d := diff(want, rest.Got); d != "" {
+				report("filter:"+d+":"+optName(o)+":long-chunks", o, raw, chunks, nil,
+					fmt.Sprintf("with all options [%s]; with %s [%s]", ls.RenderDeliveries(full.Got), optName(o), ls.RenderDeliveries(rest.Got)))
+			}
+		}
+	}
+	var rec func()
+	rec = func() {
+		n := len(stream)
+		one(stream, []int{n})
+		for cut := 1; cut < n; cut++ {
+			one(stream, []int{cut, n - cut})
+		}
+		if n == maxLen {
+			return
+		}
+		for _, c := range chunkClasses {
+			stream = append(stream, c)
+			rec()
+			stream = stream[:n]
+		}
+	}
+	rec()
+	ctx.Add("long_chunk_streams_prefixes", 1)
+}
+
 func main() {
 	ctx = engine.Start("C14", "model_checking")
 	if ctx.ReplayPath != "" {
 		replay()
 		return
 	}
-	ctx.Assume("streams are sender-legal (C04's domain), so stray F7 / malformed input cannot masquerade as a filter defect")
+	ctx.Assume("the all-options listener on the same wire is the reference (differential oracle); what it should deliver is C04's and C06's business")
 	cs := combos()
 	ctx.JobsW("product", len(cs), 2, func(j int) { product(cs[j]) })
 	type job struct {
@@ -368,6 +432,8 @@ func main() {
 	}
 	ctx.Jobs("sender", len(jobs), func(j int) { senderSpace(jobs[j].o, jobs[j].first) })
 	ctx.Jobs("relisten", len(cs), func(j int) { relistenSpace(j) })
+	nc := len(chunkClasses)
+	ctx.Jobs("long-chunks", nc*nc, func(j int) { chunkSpace(j/nc, j%nc) })
 	ctx.Set("traces_validated_against_impl", ctx.GetInt("transitions"))
 	ctx.Set("max_depth", ctx.GetInt("max:depth"))
 	ctx.Set("fixpoint_reached", ctx.GetInt("fixpoints_reached") == ctx.GetInt("searches"))
